@@ -220,7 +220,7 @@ def post_model(cases, impl, model):
             if "imports" in d:
                 d["imports"] = " ".join(sorted(d["imports"].split(" "))) if d["imports"] else ""
             for k in list(d):
-                if k.startswith(("jget:", "jset:", "jexp:")) and d[k] != "-":
+                if k.startswith(("jget:", "jset:", "jexp:", "tags:")) and d[k] != "-":
                     d[k] = ",".join(sorted(d[k].split(",")))       # compared as sets (statement order is the template's business)
             if c["id"].endswith("m"):
                 if "star-eq" in impl[c["id"]]:
